@@ -89,7 +89,7 @@ func TestQBFTStaged(t *testing.T) {
 	maxEv := vstat.EnvInt("VERIF_MAXEV", 300)
 	rapid.Check(t, func(rt *rapid.T) {
 		rapid.SyncTest(rt, func(rt *rapid.T) {
-			n := rapid.SampledFrom([]int{4, 4, 4, 5, 6, 7, 7}).Draw(rt, "n")
+			n := rapid.SampledFrom([]int{3, 3, 4, 4, 4, 5, 6, 6, 7, 7}).Draw(rt, "n")
 			f := (n - 1) / 3
 			byz := map[int64]bool{}
 			for len(byz) < f {
